@@ -27,11 +27,11 @@ import (
 // each probe's outcome class from its construction.
 
 type probe struct {
-	Class string `json:"class"`
-	Data  string `json:"data"`            // hex
-	Note  string `json:"note,omitempty"`
-	Model string `json:"model"`           // unit tokens for the Lean model
-	Expect bool  `json:"expect_accept"`   // positive controls only
+	Class  string `json:"class"`
+	Data   string `json:"data"` // hex
+	Note   string `json:"note,omitempty"`
+	Model  string `json:"model"`         // unit tokens for the Lean model
+	Expect bool   `json:"expect_accept"` // positive controls only
 }
 
 type probeCase struct {
